@@ -281,15 +281,33 @@ func c21RunHistory(r *verifkit.Run, keys []*operator.PublicKey, index map[string
 
 		// fresh decision from the observed answers
 		anyErr, anyYes := false, false
+		yesBeforeAnyError := false
 		asked := map[int]bool{}
-		for _, c := range calls {
+		for _, c := range calls { // in the order the applications were asked
 			asked[c.app] = true
 			if c.answer == c21Err {
 				anyErr = true
 			}
 			if c.answer == c21Yes {
 				anyYes = true
+				if !anyErr {
+					yesBeforeAnyError = true
+				}
 			}
+		}
+		if yesBeforeAnyError && anyErr {
+			// an application had already recognised the peer when another
+			// check failed: "admitted iff ... at least one application
+			// recognizes it" - the later failure must not turn the recognised
+			// peer away (nor does the property allow it to be remembered as
+			// anything but recognised)
+			stats["decisions_yes_then_error"]++
+			if !admitted {
+				r.Violation("recognized-rejected-by-later-failure", "an application recognised the peer before any check failed, but the peer was rejected because a later application failed: "+fmt.Sprint(err), stepDesc, c21CallNames(calls))
+			}
+			remembered[p] = c21Pos
+			errPending[p] = false
+			continue
 		}
 		if errPending[p] {
 			stats["requeried_after_error"]++
